@@ -461,6 +461,7 @@ type SpecFun struct {
 	Text   string
 	Reads  []string // hfun: struct types / memory classes whose heap arrays are implicit arguments
 	Axioms []*Clause
+	Manual map[string]*Clause // hlemma: instantiated only on request, as fname.label(args...)
 }
 
 type GhostFun struct {
@@ -486,7 +487,7 @@ func NewSpecs() *Specs {
 	return &Specs{Contracts: map[string]*Contract{}, Funs: map[string]*SpecFun{}, Ghosts: map[string]*GhostFun{}}
 }
 
-var keywordRe = regexp.MustCompile(`^(func|iface|functype|spec|ufun|hfun|haxiom|axiom|lemma|ghost|property|trusted|pure|implements|requires|ensures|modifies|loop|invariant|decreases|end|may_panic|nosafety|assume|alloc|hint|posthint|replay|check|split)\b`)
+var keywordRe = regexp.MustCompile(`^(func|iface|functype|spec|ufun|hfun|haxiom|hlemma|axiom|lemma|ghost|property|trusted|pure|implements|requires|ensures|modifies|loop|invariant|decreases|end|may_panic|nosafety|assume|alloc|hint|posthint|replay|check|split)\b`)
 var labelRe = regexp.MustCompile(`^([A-Za-z_][A-Za-z0-9_.]*)\s*:([^:]|$)`)
 var propTagRe = regexp.MustCompile(`^\[([A-Za-z0-9 ,]+)\]\s*`)
 var headRe = regexp.MustCompile(`^(\S.*?)\(([^)]*)\)\s*(?:\(([^)]*)\))?\s*$`)
@@ -738,7 +739,7 @@ func (sp *Specs) ParseSpecFile(path string, pkg string) error {
 			if curLoop != nil {
 				curLoop.Decreases = c
 			}
-		case "haxiom":
+		case "haxiom", "hlemma":
 			// haxiom fname: label: expr
 			i := strings.Index(rest, ":")
 			fn := strings.TrimSpace(rest[:i])
@@ -750,7 +751,14 @@ func (sp *Specs) ParseSpecFile(path string, pkg string) error {
 			if f == nil {
 				return fmt.Errorf("%s:%d: haxiom for unknown hfun %s", path, l.n, fn)
 			}
-			f.Axioms = append(f.Axioms, c)
+			if kw == "hlemma" {
+				if f.Manual == nil {
+					f.Manual = map[string]*Clause{}
+				}
+				f.Manual[c.Label] = c
+			} else {
+				f.Axioms = append(f.Axioms, c)
+			}
 		case "spec", "ufun", "hfun":
 			// spec name(p T, q T) T = expr      |  ufun name(p T, q T) T
 			i := strings.Index(rest, "(")
